@@ -9,6 +9,7 @@ code -> spec : seeded random longer histories with the look-up answers recorded 
 """
 import json
 import os
+import sys
 
 import tlc
 
@@ -149,6 +150,32 @@ def F(x):
     return [x[k] for k in sorted(x)] if isinstance(x, dict) else list(x)
 
 
+def print_summary(module, name, observations, strip=''):
+    """The ONE line an extra module prints per run (nothing when there is nothing to observe): the classes with their counts,
+    most frequent first, at most 300 characters.  Count and smallest example of every class stay in the evidence
+    (ctx.cov[name]['observations'])."""
+    if not observations:
+        return
+    try:
+        '\u2014\u2026'.encode(getattr(sys.stdout, 'encoding', None) or 'ascii')
+        dash, dots = '\u2014', '\u2026'
+    except (UnicodeError, LookupError):
+        dash, dots = '--', '...'
+    head = 'OBSERVATION (%s, outside the listed properties) %d classes, %d cases: ' % (
+        module, len(observations), sum(v['count'] for v in observations.values()))
+    tail = ' %s details in evidence coverage.%s.observations' % (dash, name)
+    items = ['%s (%d)' % (k[len(strip):] if strip and k.startswith(strip) else k, v['count'])
+             for k, v in sorted(observations.items(), key=lambda kv: (-kv[1]['count'], kv[0]))]
+    room = 300 - len(head) - len(tail)
+    shown = []
+    for n, item in enumerate(items):
+        if len(', '.join(shown + [item])) + (len(dots) + 2 if n + 1 < len(items) else 0) > room:
+            shown.append(dots)
+            break
+        shown.append(item)
+    print(head + ', '.join(shown) + tail)
+
+
 def run(ctx, wd):
     observations = {}
 
@@ -233,16 +260,7 @@ def run(ctx, wd):
     ctx.count(evaluations=len(rtraces), traces=len(rtraces))
     ctx.cov['rlist'] = dict(histories_enumerated=nstates, replays=len(traces), random_histories=len(rtraces),
                             observations={k: v for k, v in sorted(observations.items())})
-    seen = set()
-    for key, v in sorted(observations.items()):
-        clause = key.split('/')[1]
-        if clause in seen:
-            continue
-        seen.add(clause)
-        ex = v['example']
-        print('OBSERVATION (RList, outside the listed properties) %s: %d cases, e.g. RList(%s) then %s -> content %s, positions %s' % (
-            clause, v['count'], ex['init'], ['%s(%s%s)' % (o['op'], o['i'], (',' + str(o['v'])) if o['v'] else '') for o in ex['ops']],
-            ex['observed']['content'], {p['v']: p['at'] for p in ex['observed']['positions']}))
+    print_summary('RList', 'rlist', observations, strip='RList/')
 
 
 def _abstract(init, events):
